@@ -124,6 +124,14 @@ func (s WSState) Files() map[string]string {
 	if s.ExtTest {
 		f["a/ext_test.go"] = "package a_test\n\nimport (\n\t\"testing\"\n\n\t\"example.com/ws/a\"\n)\n\nfunc TestExt(t *testing.T) {\n\tif a.Run() == 1 == true {\n\t\tt.Log(\"x\")\n\t}\n}\n"
 	}
+	// ---- package s: sibling files whose single problem sits one line lower in each file, so
+	// that after a directive (one line, or two with a lead comment) has been inserted above
+	// the problem of one file, its line number coincides with the problem of the next file
+	for k := 1; k <= 4; k++ {
+		pad := strings.Repeat("//\n", (k-1)%3)
+		f[fmt.Sprintf("s/s%d.go", k)] = fmt.Sprintf("package s\n\n%s// S%d compares a value with itself.\nfunc S%d(x int) bool {\n\treturn x == x\n}\n", pad, k, k)
+	}
+	f["s/doc.go"] = "// Package s has sibling files with problems on neighbouring line numbers.\npackage s\n"
 	for i := 0; i < s.Extra; i++ {
 		var x strings.Builder
 		fmt.Fprintf(&x, "// Package x%d is a filler package.\npackage x%d\n\n", i, i)
